@@ -650,6 +650,20 @@ func Extract(a *Term, hi, lo int) *Term {
 		}
 	case OpExtract:
 		return Extract(a.Args[0], hi+a.Lo, lo+a.Lo)
+	case OpBVLShr:
+		if c := a.Args[1]; c.IsConst() && hi+int(c.Val) < a.W {
+			return Extract(a.Args[0], hi+int(c.Val), lo+int(c.Val))
+		}
+	case OpBVShl:
+		if c := a.Args[1]; c.IsConst() && lo >= int(c.Val) {
+			return Extract(a.Args[0], hi-int(c.Val), lo-int(c.Val))
+		}
+	case OpBVOr, OpBVAnd, OpBVXor:
+		// bitwise ops distribute over extraction; worthwhile when a side vanishes
+		l, r := Extract(a.Args[0], hi, lo), Extract(a.Args[1], hi, lo)
+		if l.IsConst() || r.IsConst() {
+			return bin(a.Op, l, r)
+		}
 	case OpConcat:
 		lw := a.Args[1].W
 		if hi < lw {
@@ -803,4 +817,29 @@ func (t *Term) String() string {
 		return t.Name
 	}
 	return fmt.Sprintf("t%d", t.ID)
+}
+
+// Same is a bounded structural equality test (sound: true implies equal).
+func Same(a, b *Term, depth int) bool {
+	if a == b {
+		return true
+	}
+	if a.Op != b.Op || a.W != b.W || a.Arr != b.Arr || len(a.Args) != len(b.Args) {
+		return false
+	}
+	switch a.Op {
+	case OpConst:
+		return a.Val == b.Val
+	case OpVar:
+		return a.Name == b.Name
+	}
+	if a.Hi != b.Hi || a.Lo != b.Lo || depth <= 0 {
+		return false
+	}
+	for i := range a.Args {
+		if !Same(a.Args[i], b.Args[i], depth-1) {
+			return false
+		}
+	}
+	return true
 }
